@@ -15,11 +15,11 @@ import (
 
 type nilSite struct {
 	Guarded bool
-	Fn     *ssa.Function
-	Call   ssa.CallInstruction
-	Callee string
-	Deref  ssa.Instruction
-	Why    string
+	Fn      *ssa.Function
+	Call    ssa.CallInstruction
+	Callee  string
+	Deref   ssa.Instruction
+	Why     string
 }
 
 // mayReturnNilNil: result index k (pointer typed) can be nil while the error is nil.
